@@ -412,6 +412,23 @@ func Monitors(c *Case) []vh.Violation {
 		}
 		add("C05:registered-after-shutdown", fmt.Sprintf("actors still registered after shutdown: %v", regs), map[string]string{"respawned": resp, "orphan": orphan})
 	}
+	// Shutdown returns when the closed signal is set: nothing may be handled after that
+	closedAt := -1
+	for i, st := range c.Steps {
+		if st.Closed {
+			closedAt = i
+			break
+		}
+	}
+	if closedAt >= 0 {
+		for _, o := range fl {
+			if o.K == "H" && o.Step > closedAt {
+				add("C05:handled-after-shutdown-returned", fmt.Sprintf("actor %d handled %s at step %d, after the system had signalled closed at step %d (Shutdown had returned)",
+					o.A, o.Trig, o.Step, closedAt), map[string]string{"orphan": fmt.Sprint(isOrphan(o.A))})
+				break
+			}
+		}
+	}
 	// ---------------- C06: exactly once
 	// For a target address that was spawned at most once (no address reuse), an observer may handle OnTerminated(target)
 	// at most: one for being its parent or having watched it while it was registered and not yet terminating, plus one
